@@ -82,3 +82,7 @@ impl EntryHeader {
         })
     }
 }
+
+#[cfg(kani)]
+#[path = "/verif/harness/foyer-storage/block_serde.rs"]
+mod verif_kani;
